@@ -388,11 +388,35 @@ func (ex *Exec) loadIndexed(arr *Cell, idx *T, site string) Value {
 	if tv, ok := ex.tableLookup(arr, idx); ok {
 		return tv
 	}
-	v := ex.loadCell(arr.Kids[n-1])
-	for i := n - 2; i >= 0; i-- {
-		v = ex.iteValue(ex.C.Eq(idx, ex.k64(int64(i))), ex.loadCell(arr.Kids[i]), v)
+	if v, ok := ex.tryIte(func() Value {
+		v := ex.loadCell(arr.Kids[n-1])
+		for i := n - 2; i >= 0; i-- {
+			v = ex.iteValue(ex.C.Eq(idx, ex.k64(int64(i))), ex.loadCell(arr.Kids[i]), v)
+		}
+		return v
+	}); ok {
+		return v
 	}
-	return v
+	k := ex.concretize(idx, "index@"+site, 4096)
+	return ex.loadCell(arr.Kids[k])
+}
+
+// tryIte runs f, which builds an ite over values; if the values cannot be merged (pointers, strings of different
+// length, ...) it reports failure so that the caller can case-split instead. Inside a merge arm the failure propagates.
+func (ex *Exec) tryIte(f func() Value) (v Value, ok bool) {
+	if ex.mergeDepth > 0 {
+		return f(), true
+	}
+	defer func() {
+		if r := recover(); r != nil {
+			if _, isMF := r.(mergeFail); isMF {
+				v, ok = nil, false
+				return
+			}
+			panic(r)
+		}
+	}()
+	return f(), true
 }
 
 func (ex *Exec) storeIndexed(arr *Cell, idx *T, v Value, site string) {
@@ -418,10 +442,20 @@ func (ex *Exec) storeIndexed(arr *Cell, idx *T, v Value, site string) {
 		ex.storeCell(ex.kid(arr, k), v)
 		return
 	}
-	for i, c := range arr.Kids {
-		old := ex.loadCell(c)
-		ex.storeCell(c, ex.iteValue(ex.C.Eq(idx, ex.k64(int64(i))), v, old))
+	news := make([]Value, len(arr.Kids))
+	if _, ok := ex.tryIte(func() Value {
+		for i, c := range arr.Kids {
+			news[i] = ex.iteValue(ex.C.Eq(idx, ex.k64(int64(i))), v, ex.loadCell(c))
+		}
+		return nil
+	}); ok {
+		for i, c := range arr.Kids {
+			ex.storeCell(c, news[i])
+		}
+		return
 	}
+	k := ex.concretize(idx, "index@"+site, 4096)
+	ex.storeCell(arr.Kids[k], v)
 }
 
 // iteValue builds ite(c, a, b) over values; aborts the merge / reports unsupported if not possible.
